@@ -33,6 +33,11 @@ def _expect(fmt_items, d):
         if not it.startswith("%"):
             out += it
             continue
+        if it.endswith("th") and len(it) > 3:
+            # an ordinal: the plain number (no padding) and its English suffix
+            k = int(_expect([it[:-2]], d).strip())
+            out += "%d%s" % (k, "th" if 11 <= k % 100 <= 13 else {1: "st", 2: "nd", 3: "rd"}.get(k % 10, "th"))
+            continue
         mod, sp = it[1:-1], it[-1]
 
         def num(v, w):
@@ -114,6 +119,8 @@ FORMATS = [
     (["%F", " ", "%db"], False),
     (["%b", " ", "%d", " ", "%Y"], True),
     (["%B", " ", "%-d", ", ", "%Y", " (", "%a", ")"], True),
+    (["%dth", " of ", "%B", " ", "%Y"], True),
+    (["%Y", " ", "%jth"], True),
 ]
 _G = {}
 
@@ -204,7 +211,14 @@ def _memcmp(a, b, n):
     raise NotConst("memcmp of unlike objects")
 
 
-LIBC = {"memcmp": _memcmp, "snprintf": _snprintf, "strlen": _strlen, "memcpy": _memcpy, "memset": _memset, "strncasecmp": _strncasecmp, "strchr": _strchr}
+def _memmove(dst, src, n):
+    tmp = [src.get(i) for i in range(n)]
+    for i, b in enumerate(tmp):
+        dst.put(b, i)
+    return dst
+
+
+LIBC = {"memmove": _memmove, "memcmp": _memcmp, "snprintf": _snprintf, "strlen": _strlen, "memcpy": _memcpy, "memset": _memset, "strncasecmp": _strncasecmp, "strchr": _strchr}
 
 
 def _worker(ys):
